@@ -212,8 +212,9 @@ def particle_specs(draw, medium, n_ant, vkinds=("in", "in", "in", "in", "in", "i
     had = draw(st.sampled_from([0.0, 1.0, None, None]))
     return dict(id=draw(st.sampled_from(NU_IDS)), vertex=vtx["p"], vkind=vtx["kind"],
                 dir=draw(direction_specs(n_ant)), energy=draw(log_floats(1e5, 1e11)),
-                em=draw(floats(0.0, 1.0)) if em is None else em,
-                had=draw(floats(0.0, 1.0)) if had is None else had, sw=sw, iw=iw, fw=fw)
+                # (0 or >= 1e-3: shower energies stay far above ARZ's pole at 0.0786 GeV, cf. C07)
+                em=draw(floats(1e-3, 1.0)) if em is None else em,
+                had=draw(floats(1e-3, 1.0)) if had is None else had, sw=sw, iw=iw, fw=fw)
 
 
 # An antenna that already holds k Askaryan (function-backed) signals takes about 3^k ms to
@@ -543,25 +544,98 @@ class Solver:
         return gens.ref_index(spec, z)
 
 
-def resolve_direction(ps, solver, ant_specs, offcone_max):
+ARZ_BUDGET = 3e5    # samples of ARZ's internally oversampled trace per pulse
+C_LIGHT = 299792458.0
+
+
+def arz_min_offsets(case, ps, n, theta_c):
+    """Smallest |psi - theta_c| (rad; below, above the cone) that keeps the ARZ model affordable.
+
+    ARZ divides dt until dz <= shower length / 100, i.e. by 100 dt c / (L |1 - n cos(psi)|) with
+    L = 0.01 * 36.08 * log2(E / 0.0786) / 0.92 m (documented shower-maximum depth): the cost
+    diverges at the cone, except exactly on it (|psi - theta_c| < ~5e-7 rad uses a closed form).
+    Same domain restriction as C07."""
+    if case["model"] not in ("ARZ", "ARVZ"):
+        return 0.0, 0.0
+    lengths = [abs(0.01 * 36.08 * math.log2(e / 0.0786) / 0.92)
+               for e in (ps["energy"] * ps["em"], ps["energy"] * ps["had"]) if e > 0]
+    if not lengths or min(lengths) <= 0:
+        return 0.0, 0.0
+    g = 100.0 * case["times"]["dt"] * C_LIGHT * (case["times"]["n"] + 1) / (min(lengths) * ARZ_BUDGET)
+    above = math.acos(max(-1.0, (1 - g) / n)) - theta_c
+    below = theta_c - math.acos((1 + g) / n) if (1 + g) / n <= 1 else None
+    return below, above
+
+
+def _arz_unsafe(d, ps, solver, ant_specs, case):
+    """True when some ray of this particle is viewed close to (but not on) the cone, where the
+    ARZ model's cost explodes (see arz_min_offsets)."""
+    if case["model"] not in ("ARZ", "ARVZ"):
+        return False
+    n = solver.index(ps["vertex"][2])
+    if not n >= 1:
+        return False
+    theta_c = math.acos(1.0 / n)
+    below, above = arz_min_offsets(case, ps, n, theta_c)
+    for ant in ant_specs:
+        for path in solver.solutions(ps["vertex"], ant["pos"]):
+            delta = viewing_angle(d, path.emitted_direction) - theta_c
+            if abs(delta) <= 1e-7:       # on the cone: closed form (oncone_range is 4.5e-7 rad)
+                continue
+            lim = above if delta > 0 else below
+            if lim is None or abs(delta) < lim:
+                return True
+    return False
+
+
+def resolve_direction(ps, solver, ant_specs, case):
     """Direction of a listed particle; 'cone'/'along' are relative to a harness-traced ray."""
+    d, mode = _resolve_direction(ps, solver, ant_specs, case, 0.0)
+    k = 0
+    while _arz_unsafe(d, ps, solver, ant_specs, case) and k < 8:
+        # push the view of the targeted ray further off the cone / tilt a free direction
+        k += 1
+        d, mode = _resolve_direction(ps, solver, ant_specs, case, 0.004 * 2 ** k)
+    return d, mode
+
+
+def _resolve_direction(ps, solver, ant_specs, case, push):
+    offcone_max = case["offcone_max"]
     d = ps["dir"]
+
+    def free():
+        v = _unit(d["v"])
+        if push:
+            u, w = _perp_basis(v)
+            v = _unit(v + push * u)
+        return v, "vec"
     if d["mode"] == "vec" or not ant_specs:
-        return _unit(d["v"]), "vec"
+        return free()
     ant = ant_specs[d["ant"] % len(ant_specs)]
     sols = solver.solutions(ps["vertex"], ant["pos"])
     if not sols:
-        return _unit(d["v"]), "vec"
+        return free()
     e = np.asarray(sols[d["sol"] % len(sols)].emitted_direction, dtype=float)
     if not np.all(np.isfinite(e)) or abs(np.linalg.norm(e) - 1) > 1e-6:
-        return _unit(d["v"]), "vec"
+        return free()
     if d["mode"] == "along":
+        if push:
+            return free()
         return d["sign"] * e, "along"
     n = solver.index(ps["vertex"][2])
     theta_c = math.acos(1.0 / n) if n >= 1 else 0.0
     off = math.radians(d["off_deg"])
     if d.get("edge") is not None and offcone_max is not None and offcone_max < 120.0:
         off = math.radians(offcone_max) * (1.0 + d["edge"]) * (1.0 if d["off_deg"] >= 0 else -1.0)
+    if off != 0 or push:
+        below, above = arz_min_offsets(case, ps, n, theta_c)
+        if off == 0:
+            off = 1e-12
+        if off < 0 and below is None:
+            off = -off
+        lim = above if off > 0 else below
+        if abs(off) < lim + push:
+            off = math.copysign(1.01 * lim + 1e-9 + push, off)
     psi = min(max(theta_c + off, 0.0), math.pi)
     u, w = _perp_basis(e)
     v = math.cos(psi) * e + math.sin(psi) * (math.cos(d["az"]) * u + math.sin(d["az"]) * w)
@@ -582,7 +656,7 @@ def build_generator(case, solver, tmpdir, twin=False):
             return g.CylindricalGenerator(gs["dr"], gs["dz"], **kw), None
         return g.RectangularGenerator(gs["dx"], gs["dy"], gs["dz"], **kw), None
     aspecs = effective_antenna_specs(case)
-    dirs = [[resolve_direction(p, solver, aspecs, case["offcone_max"])[0] for p in es["particles"]]
+    dirs = [[resolve_direction(p, solver, aspecs, case)[0] for p in es["particles"]]
             for es in gs["events"]]
     if gs["kind"] == "list":
         events = [build_event(es, ds) for es, ds in zip(gs["events"], dirs)]
@@ -1056,16 +1130,16 @@ def _run_case(case, rec, checks, tmpdir, opened):
                             require(np.allclose(np.asarray(h["direction"], dtype=float), rd, rtol=0, atol=1e-12),
                                     "%s: receive direction %r is not the path's received_direction %r",
                                     what, h["direction"], rd)
-                            for s in h["signal"]:
-                                require(np.array_equal(s.times, grid), "%s: a polarization component "
+                            for comp in h["signal"]:
+                                require(np.array_equal(comp.times, grid), "%s: a polarization component "
                                         "handed to receive is not on signal_times + tof", what)
-                            for pv in h["polarization"]:
-                                pv = np.asarray(pv, dtype=float)
-                                nrm = float(np.linalg.norm(pv))
-                                # exactly vertical rays have no s/p basis in pyrex (zero vectors; C03)
-                                require(nrm == 0 or (abs(nrm - 1) < 1e-9 and abs(float(np.dot(pv, rd))) < 1e-6),
-                                        "%s: polarization %r handed to receive is not a unit vector "
-                                        "transverse to the received direction %r", what, pv, rd)
+                            # the s/p directions are the path's own (propagate's second result)
+                            want_pols = en.path.propagate(polarization=en.pol)
+                            for pv, wv in zip(h["polarization"], want_pols):
+                                require(np.allclose(np.asarray(pv, dtype=float), np.asarray(wv, dtype=float),
+                                                    rtol=0, atol=1e-9),
+                                        "%s: polarization direction %r handed to receive, the path's "
+                                        "propagate() gives %r", what, pv, wv)
             if ia > 0 and len(ens) > 0 and any(len(e) == 0 for e in entries[:ia]):
                 any_shadow_then_visible = True
 
@@ -1343,7 +1417,7 @@ def _direction_beyond_unit_dot(case):
     aspecs = effective_antenna_specs(case)
     for es in gs["events"]:
         for ps in es["particles"]:
-            d = normalize(resolve_direction(ps, solver, aspecs, case["offcone_max"])[0])
+            d = normalize(resolve_direction(ps, solver, aspecs, case)[0])
             for a in aspecs:
                 for path in solver.solutions(ps["vertex"], a["pos"]):
                     if abs(float(np.vdot(path.emitted_direction, d))) > 1.0:
@@ -1467,6 +1541,9 @@ PROPERTY = Property(
         "at most 6 (+3) signals are put on one antenna between two clears: receiving the k-th function-backed "
         "signal costs about 3^k ms in pyrex (nested deep copies of the antenna), 12 signals take a minute each; "
         "run time is not an oracle here, so larger pile-ups are outside the generated domain",
+        "listed particles: shower fractions 0 or >= 1e-3, and ARZ viewing angles of the targeted ray are "
+        "either exactly on the cone or far enough off it that ARZ's oversampled trace stays below 3e5 samples "
+        "(cost diverges at the cone; same restriction as C07)",
         "particles moving exactly along a ray (sin psi < 1e-7) are compared for grid, count and finiteness only: "
         "their polarization is rounding noise in every formula",
     ],
